@@ -6,9 +6,10 @@ TOPO = {
  "two":   ("TasksRW", "AdTwo", "KindsRW", "FALSE", "BothEnds"),
  "split": ("TasksRW", "AdOne", "KindsRW", "FALSE", "End1"),
  "join":  ("TasksRW", "AdOne", "KindsRW", "TRUE", "End1"),
+ "handoff": ("TasksAB", "AdAB", "KindsAB", "FALSE", "End1"),
 }
 INV = "TypeOK Inv_C17_Exact Inv_C17_NeverStuck Inv_C17_Woken Inv_C17_Blocking Inv_C17_Released"
-def cfg(name, comment, topo, B=2, LW=0, sym="S01", MaxLen=3, MaxChunk=3, MaxOps=3, MaxPeerOps=3, MaxAdapt=1, WithFile=False,
+def cfg(name, comment, topo, B=2, LW=0, sym="S01", MaxLen=3, MaxChunk=3, MaxOps=3, MaxPeerOps=3, MaxAdapt=1, MaxAbandon=0, WithFile=False,
         Variants="{}", AsyncPeer=True, RecordHist=False, MaxSteps=0, Guided=False, spec="Spec", inv=INV, prop=None):
     t = TOPO[topo]
     b = lambda x: "TRUE" if x else "FALSE"
@@ -17,7 +18,7 @@ def cfg(name, comment, topo, B=2, LW=0, sym="S01", MaxLen=3, MaxChunk=3, MaxOps=
       "  B = %d" % B, "  LowWater = %d" % LW, "  Sym <- %s" % sym if not sym.startswith("{") else "  Sym = %s" % sym,
       "  MaxLen = %d" % MaxLen, "  MaxChunk = %d" % MaxChunk,
       "  Tasks <- %s" % t[0], "  AdOf <- %s" % t[1], "  Kinds <- %s" % t[2], "  Join = %s" % t[3], "  Adapted <- %s" % t[4],
-      "  MaxOps = %d" % MaxOps, "  MaxPeerOps = %d" % MaxPeerOps, "  MaxAdapt = %d" % MaxAdapt, "  WithFile = %s" % b(WithFile),
+      "  MaxOps = %d" % MaxOps, "  MaxPeerOps = %d" % MaxPeerOps, "  MaxAdapt = %d" % MaxAdapt, "  MaxAbandon = %d" % MaxAbandon, "  WithFile = %s" % b(WithFile),
       "  Variants = %s" % Variants, "  AsyncPeer = %s" % b(AsyncPeer), "  RecordHist = %s" % b(RecordHist),
       "  MaxSteps = %d" % MaxSteps, "  Guided = %s" % b(Guided)]
     if inv:
@@ -54,7 +55,13 @@ cfg("asyncio_t_split", "C17 thorough, topology split: scripts of <= 3 operations
     "split", MaxOps=3, MaxChunk=2)
 cfg("asyncio_t_join", "C17 thorough, topology join: scripts of <= 3 operations per branch, chunk sizes 1..2, strings <= 3 bytes, peer <= 3 operations, also in the middle of a dispatch.",
     "join", MaxOps=3, MaxChunk=2)
-V = {"dropfd": ("drop_keeps_fd", "solo", "Inv_C17_Released", "kill() does not delete the fd from the poller (before f0ccfc5)"),
+HO = "two tasks A and B use ONE adapter one after the other: a pending operation is abandoned (future dropped) and the other task waits for the same direction"
+cfg("asyncio_q_handoff", "C17 quick, topology handoff (" + HO + "):\nscripts of <= 2 operations per task, <= 2 abandoned operations, chunk sizes 1..2, strings <= 2 bytes, peer scripts <= 2 operations.",
+    "handoff", MaxLen=2, MaxOps=2, MaxChunk=2, MaxPeerOps=2, MaxAbandon=2, AsyncPeer=False)
+cfg("asyncio_t_handoff", "C17 thorough, topology handoff: scripts of <= 3 operations per task, <= 2 abandoned operations, chunk sizes 1..2, strings <= 3 bytes, peer <= 3 operations.",
+    "handoff", MaxLen=3, MaxOps=3, MaxChunk=2, MaxPeerOps=3, MaxAbandon=2, AsyncPeer=False)
+V = {"notreplaced": ("waker_not_replaced", "handoff", "Inv_C17_NeverStuck", "register_waker returns early when the direction already has a waker and keeps the stale waker of an abandoned wait"),
+     "dropfd": ("drop_keeps_fd", "solo", "Inv_C17_Released", "kill() does not delete the fd from the poller (before f0ccfc5)"),
      "adaptleak": ("failed_adapt_leaks", "solo", "Inv_C17_Released", "a failing adapt_io keeps the slot and O_NONBLOCK (before ae70cc3); checked against Blocking alone in asyncio_var_adaptleak_b"),
      "killsother": ("failed_adapt_kills_other", "solo", "Inv_C17_Released", "a failing adapt_io of an fd that already has a live adapter deletes that adapter's registration (0061559, before 64b68d5)"),
      "rearm": ("rearm_skipped", "solo", "Inv_C17_NeverStuck", "the waker is stored but the one-shot registration is not renewed when the interest equals the one registered last"),
@@ -66,7 +73,7 @@ V = {"dropfd": ("drop_keeps_fd", "solo", "Inv_C17_Released", "kill() does not de
      "norearm": ("no_rearm_after_event", "split", "Inv_C17_NeverStuck", "process_events does not renew the one-shot registration for the direction that is still waited for")}
 for k, (v, topo, inv, what) in V.items():
     cfg("asyncio_var_" + k, "non-vacuity: %s.  TLC must report %s violated." % (what, inv), topo, MaxChunk=2, MaxAdapt=(2 if topo == "solo" else 1),
-        WithFile=(topo == "solo"), MaxOps=(3 if topo == "solo" else 2), Variants='{"%s"}' % v, AsyncPeer=False)
+        WithFile=(topo == "solo"), MaxOps=(3 if topo == "solo" else 2), MaxAbandon=(2 if topo == "handoff" else 0), Variants='{"%s"}' % v, AsyncPeer=False)
 cfg("asyncio_var_adaptleak_b", "non-vacuity: a failing adapt_io leaves O_NONBLOCK set.  TLC must report Inv_C17_Blocking violated (only Blocking is checked).",
     "solo", MaxChunk=2, MaxAdapt=2, WithFile=True, Variants='{"failed_adapt_leaks"}', AsyncPeer=False, inv="Inv_C17_Blocking")
 cfg("asyncio_var_nowake_w", "non-vacuity of the quiescence clause: without the wake a task stays parked on a ready fd.  TLC must report Inv_C17_Woken violated (only Woken is checked).",
@@ -78,10 +85,10 @@ cfg("asyncio_scn_t", "scenario extraction (exhaustive, thorough): every guided b
     "solo", sym="{1}", MaxOps=2, MaxPeerOps=2, AsyncPeer=False, RecordHist=True, MaxSteps=6, Guided=True)
 cfg("asyncio_scn_two", "scenario extraction (exhaustive): every guided behaviour of <= 6 controllable steps of topology two (scripts <= 2 operations).",
     "two", sym="{1}", MaxOps=2, MaxPeerOps=0, AsyncPeer=False, RecordHist=True, MaxSteps=6, Guided=True)
-for topo in ("solo", "two", "split", "join"):
+for topo in ("solo", "two", "split", "join", "handoff"):
     cfg("asyncio_sim_" + topo, "scenario extraction (tlc -simulate, seeded): behaviours of <= 16 controllable steps of topology %s, scripts <= 5 operations,\nchunks 1..3, strings <= 8 bytes over {0,1}, second adapt_io, regular file." % topo,
-        topo, MaxLen=8, MaxOps=5, MaxPeerOps=(0 if topo == "two" else 6), MaxAdapt=2, WithFile=True, AsyncPeer=False, RecordHist=True,
-        MaxSteps=16, Guided=True)
+        topo, MaxLen=8, MaxOps=5, MaxPeerOps=(0 if topo == "two" else 6), MaxAdapt=2, MaxAbandon=(0 if topo == "join" else 2), WithFile=True,
+        AsyncPeer=False, RecordHist=True, MaxSteps=(18 if topo == "handoff" else 16), Guided=True)
 cfg("asyncio_live", "liveness form of Woken under weak fairness of the loop thread (FairSpec): a parked task whose fd is reported ready does not stay\nparked, and the loop settles (it is quiescent again and again: no busy loop).  Small bounds (temporal checking).",
     "solo", MaxLen=2, MaxChunk=2, MaxOps=2, MaxPeerOps=2, AsyncPeer=False, spec="FairSpec", inv="TypeOK", prop="Live_C17_Woken Live_C17_Settles")
 cfg("asyncio_live_two", "liveness, topology two.", "two", MaxLen=2, MaxChunk=2, MaxOps=2, MaxPeerOps=0, AsyncPeer=False, spec="FairSpec", inv="TypeOK",
@@ -94,3 +101,7 @@ cfg("asyncio_var_single_live", "non-vacuity, liveness: the code before 0061559, 
     "join", MaxLen=2, MaxChunk=2, MaxOps=2, MaxPeerOps=2, Variants='{"single_waker"}', AsyncPeer=False, spec="FairSpec", inv="TypeOK", prop="Live_C17_Settles")
 cfg("asyncio_var_consumed_live", "non-vacuity, liveness: take_readiness(x) clears both bits -- ONE task polling readable() then writable(): while only the write\ndirection is ready, readable() (polled first) steals its readiness at every round.  TLC must report Live_C17_Settles violated.",
     "join", MaxLen=2, MaxChunk=2, MaxOps=2, MaxPeerOps=2, Variants='{"readiness_consumed_whole"}', AsyncPeer=False, spec="FairSpec", inv="TypeOK", prop="Live_C17_Settles")
+cfg("asyncio_live_handoff", "liveness, topology handoff (a wait is abandoned, another task waits for the same direction).", "handoff", MaxLen=2, MaxChunk=2, MaxOps=2,
+    MaxPeerOps=2, MaxAbandon=2, AsyncPeer=False, spec="FairSpec", inv="TypeOK", prop="Live_C17_Woken Live_C17_Settles")
+cfg("asyncio_scn_handoff", "scenario extraction (exhaustive): every guided behaviour of <= 7 controllable steps of topology handoff (scripts <= 1 operation per task,\none abandoned operation, one symbol).",
+    "handoff", sym="{1}", MaxLen=2, MaxOps=1, MaxChunk=2, MaxPeerOps=2, MaxAbandon=1, AsyncPeer=False, RecordHist=True, MaxSteps=7, Guided=True)
